@@ -121,6 +121,9 @@ def audit(module, names):
     return res
 
 
+TRANSLATOR_INFO = {}
+
+
 def lean_obligations(prop):
     """(a) of the verdict: theorems compile, pass the axiom audit, no forbidden constructs"""
     spec = PROPS[prop]
@@ -132,6 +135,7 @@ def lean_obligations(prop):
         try:
             import static_scopes
             info = static_scopes.regenerate()
+            TRANSLATOR_INFO.clear(); TRANSLATOR_INFO.update(info)
             for pr in info["lock_problems"] + info["borrow_problems"]:
                 problems.append("translator: " + pr)
         except Exception as e:  # the translator could not read the source: the obligation is not established
@@ -604,6 +608,8 @@ def decide(prop, tier, seed):
         "correspondence_problems": cproblems[:10],
         "lean_build_s": round(lean_dt, 1),
     }
+    if TRANSLATOR_INFO:
+        cov["translator"] = dict(TRANSLATOR_INFO, what="checklib/static_scopes.py regenerated lean/Cachelito/Cachelito/Generated/{LockNesting,BorrowNesting}.lean from /repo's current source before the build; the C17s / C16s theorems were checked against it")
     evaluations = 0
     validated = 0
     nontrivial = 0
